@@ -20,6 +20,9 @@ var reachedShort = &core.Check{Name: "c13/reached-short", Hang: caseHang, Fn: fu
 	timeout := time.Duration(1 + c.Intn("timeout ns", 10_000_000))
 	below := uint32(c.Intn("below", 4))
 	withOther := c.Intn("other", 2) == 1
+	// the caller's context may have ended before the call: the head it asks for was reported before that,
+	// "in time" by any reading, and the call returns success as it does under a live context
+	ctxDone := c.Intn("caller's context already cancelled", 2) == 1
 	p := pool.VerifNewPool(pool.FirstWorkingConnection, nil, nil)
 	p.VerifSetUpdateInterval(time.Hour)
 	best := p.VerifNewConnection(0)
@@ -40,12 +43,19 @@ var reachedShort = &core.Check{Name: "c13/reached-short", Hang: caseHang, Fn: fu
 		}
 	}
 	c.Note("timeout", timeout.String())
-	c.NonTrivial(int64(timeout), below, withOther)
+	c.NonTrivial(int64(timeout), below, withOther, ctxDone)
+	callCtx := ctx
+	if ctxDone {
+		cc, done := context.WithCancel(context.Background())
+		done()
+		callCtx = cc
+		c.Class("caller's context cancelled before the call")
+	}
 	const calls = 400
 	failed, first := 0, error(nil)
 	if err := poolCall(fmt.Sprintf("%d calls of WaitMasterchainSeqno for a head that is already there", calls), func() {
 		for i := 0; i < calls; i++ {
-			if err := p.WaitMasterchainSeqno(ctx, head-below, timeout); err != nil {
+			if err := p.WaitMasterchainSeqno(callCtx, head-below, timeout); err != nil {
 				if failed == 0 {
 					first = err
 				}
@@ -56,7 +66,7 @@ var reachedShort = &core.Check{Name: "c13/reached-short", Hang: caseHang, Fn: fu
 		return err
 	}
 	if failed > 0 {
-		return fmt.Errorf("the best connection had reported head %d before the calls were made; %d of %d calls of WaitMasterchainSeqno(%d, %v) returned an error (first: %v)", head, failed, calls, head-below, timeout, first)
+		return fmt.Errorf("the best connection had reported head %d before the calls were made; %d of %d calls of WaitMasterchainSeqno(%d, %v) returned an error (first: %v; caller's context cancelled before the calls: %v)", head, failed, calls, head-below, timeout, first, ctxDone)
 	}
 	return nil
 }}
@@ -66,10 +76,13 @@ func TestReachedShort(t *testing.T) {
 		for _, ns := range []uint64{0, 1, 9, 99, 999, 9_999, 99_999, 999_999, 4_999_999} {
 			for below := uint64(0); below < 4; below++ {
 				for other := uint64(0); other < 2; other++ {
-					if !yield(ns, below, other) {
+					if !yield(ns, below, other, 0) {
 						return
 					}
 				}
+			}
+			if !yield(ns, 0, 0, 1) || !yield(ns, 3, 1, 1) {
+				return
 			}
 		}
 	})
